@@ -29,11 +29,13 @@ var c05Faults = []string{
 	// arithmetic faults with symbolic operands
 	`a%b`, `a<<b`, `a>>b`, `a/b`, `a^b`, `7%(b-b)`, `1<<(0-1-(b&255))`,
 	// incomparable / wrong-typed operands for every operator
+	`a~{k:1}`, `[1]~{k:1}`, `"k"~a`, `{k:1}~{k:1}`, `1.5~[1]`, `(x->x)~[1]`,
 	`a!="x"`, `a="x"`, `a<"x"`, `a>"x"`, `a<="x"`, `a>="x"`, `"x"!=a`, `a~"x"`, `a~7`, `[1]!="x"`, `{k:1}!=[1]`, `true!=a`, `(x->x)!=(x->x)`, `(x->x)=1`,
 	`a+true`, `true-a`, `"x"*a`, `a/"x"`, `a%"x"`, `a<<"x"`, `-"x"`, `!a`, `a&b`, `true&a`, `a|true`, `[1]+a`, `{k:1}+{k:2}`, `{k:1}-1`,
 	`switch a case "x": 1 default 2`, `switch "x" case a: 1 default 2`, `switch [1] case a: 1 default 2`, `if a then 1 else 2`, `if "x" then 1 else 2`,
 	// indices, members, calls, arity
 	`[1,2][a]`, `[1,2]["x"]`, `[1,2][a][a]`, `{k:1}.z`, `a.k`, `"x".k`, `a(1)`, `"x"(1)`, `(x->x)(1,2)`, `((x,y)->x)(1)`, `{f:x->x}.f(1,2)`, `{f:1}.f(1)`,
+	`((x,y)->x+y).invoke([1])`, `((x,y)->x+y).invoke([1,2,3])`, `((x,y)->x+y).invoke(3)`, `(x->x).invoke()`, `(x->x).args(1)`, `(x->x).nosuch()`,
 	// static functions and methods: wrong types and counts
 	`sqrt("x")`, `sqrt(1,2)`, `sqrt()`, `abs("x")`, `abs([1])`, `min(a,"x")`, `max("x",a)`, `min()+1`, `[min()]`, `string(1,2)`, `numbers("x").size()`, `numbers(0-1-(b&255)).size()`, `round("x")`, `int("x")`,
 	`[1,2].map(3).size()`, `[1,2].map((x,y)->x).size()`, `[1,2].reduce(x->x)`, `[].first()`, `[].reduce((p,q)->p)`, `[1,2].top("x").size()`, `[1,2].skip([1]).size()`, `[1,2].set(a,1)`, `[1,2].set("x",1)`,
